@@ -262,10 +262,14 @@ def call_fn_item(eng, f, args):
     if n.startswith("{closure@"):
         target = [fn for fn in eng.fns.values()
                   if fn.local_types.get(1, "").replace(" ", "") == n.replace(" ", "")
-                  or ("{closure#" in fn.name and fn.header.find("_1: " + n) >= 0)]
+                  or ("{closure#" in fn.name and (fn.header.find("_1: " + n) >= 0 or fn.header.find("_1: &" + n) >= 0
+                                                  or fn.header.find("_1: &mut " + n) >= 0))]
         if len(target) != 1:
             raise Unknown(f"closure body for {n}: {len(target)} candidates")
-        return PushCall(target[0], [Agg("closure", None, dict(enumerate(f.captures)))] + list(args))
+        env_val = Agg("closure", None, dict(enumerate(f.captures)))
+        by_ref = "_1: &" in target[0].header.split(",")[0]
+        from .engine import Cell as _Cell, Ref as _Ref
+        return PushCall(target[0], [_Ref(_Cell(env_val)) if by_ref else env_val] + list(args))
     if re.match(r"NodeId::(tree|item)$", n):
         mode = 2 if n.endswith("tree") else 3
         return Agg("NodeId", None, {0: Agg("NodeMode", BV(mode, 64), {}), 1: args[0]})
@@ -458,7 +462,7 @@ def m_bm_remove_smallest(eng, st, callee, a, ty):
     return one(unit())
 
 
-@model(r"^<RoaringBitmap as (BitOrAssign|SubAssign|BitAndAssign)<&?RoaringBitmap>>::\w+$")
+@model(r"^<RoaringBitmap as (BitOrAssign|SubAssign|BitAndAssign)(<&?RoaringBitmap>)?>::\w+$")
 def m_bm_opassign(eng, st, callee, a, ty):
     x, y = bitmap_of(eng, a[0]), bitmap_of(eng, a[1])
     if "BitOrAssign" in callee:
